@@ -13,7 +13,11 @@ GProbe == {0, 1, 4, 11, 24, 25, 26, 32, 64, 67, 90, 96, 99, 105, 108, 115, 122, 
 GProbeQ == {0, 1, 11, 25, 67, 99, 108, 128, 134, 137, 144, 145, 191, 192, 193, 256, 257, 2047, 2048, 2052, 2304, 2305, 4096}
 
 GenInit == Init /\ hist = <<obs>>
-GenNext == Next /\ hist' = Append(hist, obs')
+\* registrations that are denied memory are bound by trace validation only (whether a call asks
+\* for memory at all is the implementation's business); the format sweep at the machine's byte order
+GenNext == /\ Next /\ hist' = Append(hist, obs')
+           /\ "fail" \notin DOMAIN obs'.arg
+           /\ (obs'.a = "fmtsweep" => obs'.arg.nat = SFmtNative)
 GenSpec == GenInit /\ [][GenNext]_<<vars, hist>>
 Bound == Cardinality(DOMAIN reg) - Cardinality(DOMAIN BuiltinReg) <= MaxAdds
 View  == <<reg, ifs, dyn, metaC, genC>>
